@@ -53,13 +53,17 @@ def isNcName (e : CEnv) (name : Str) : Bool :=
     (e.isAlpha c || c = '_') &&
     cs.all (fun ch => e.isAlpha ch || e.isDigit ch || Tables.ncnamePunctuation.contains ch.toNat)
 
+/-- `$` also matches just before one final newline -/
+def dropFinalNewline (s : Str) : Str :=
+  match s.reverse with
+  | '\n' :: r => r.reverse
+  | _ => s
+
 /-- `URI_REGEX.search(uri)`: as a language the pattern is `B* ('#' F+)? '\n'?`
 with `B`/`F` the character sets extracted into `Tables` (the scheme and `/{0,2}`
 parts only use characters of `B`). -/
 def uriMatch (s : Str) : Bool :=
-  let t := match s.reverse with
-    | '\n' :: r => r.reverse
-    | _ => s
+  let t := dropFinalNewline s
   let p := partitionChar '#' t
   p.1.all (fun c => Tables.uriBodyChars.contains c.toNat && c ≠ '#') &&
   (if p.2.1 then !p.2.2.isEmpty && p.2.2.all (fun c => Tables.uriFragmentChars.contains c.toNat)
